@@ -229,7 +229,7 @@ theorem partial_file_on_cut_spec (P : Profile) (hwf : ProfileWF P = true) (o : O
       List.take_of_length_le (by omega : (serialize (.defn d0 b0 :: .data d0.localT fs dev :: done)).length ≤ _),
       List.take_append_of_le_length (by omega)]
   rw [htake]
-  obtain ⟨e, he, hfe⟩ := decode_cut_partial P o k g proto profile d0 b0 fs dev done it more j stop st1 hp hp2 hwf0 hg hkn
+  obtain ⟨e, he, hfe, _⟩ := decode_cut_partial P o k g proto profile d0 b0 fs dev done it more j stop st1 hp hp2 hwf0 hg hkn
     _ rfl hlen hfit hrun hj
   have hnp := C01.decodeSpec_never_panics P hwf o .full g (u8 k.size :: (hdrTail k proto profile
       (serialize (.defn d0 b0 :: .data d0.localT fs dev :: (done ++ it :: more))).length ++
